@@ -178,7 +178,20 @@ func c14Add(c *Ctx, p *Prog, R string) {
 		}
 		nLoops++
 		start := loopBodyStart(lp)
-		outs, why := e6Enumerate(func() *e6Interp { return &e6Interp{} }, start, lp.Header, iterStop(lp, start), 64)
+		outs, why := e6Enumerate(func() *e6Interp {
+			return &e6Interp{Inline: func(f *ssa.Function) bool {
+				// the get-or-create of a cell may be a helper: one result, a *builderCell
+				if f.Pkg != fn.Pkg || f.Parent() != nil || len(naturalLoops(f)) != 0 || len(f.Blocks) > 10 || f.Signature.Results().Len() != 1 {
+					return false
+				}
+				pt, ok := f.Signature.Results().At(0).Type().(*types.Pointer)
+				if !ok {
+					return false
+				}
+				nt, ok := pt.Elem().(*types.Named)
+				return ok && nt.Obj().Name() == "builderCell"
+			}}
+		}, start, lp.Header, iterStop(lp, start), 256)
 		if why != "" {
 			c.Undecided(R, "Add:table", site, why)
 			return
